@@ -14,6 +14,8 @@ from ..model import types as T
 from ..model.types import render, assignable, lub, witness, writable
 
 PROP = 'C04'
+# types named like the generic parameters used below: a generic parameter is the nearest declaration of its name, so these never matter
+SHADOW = 'struct T(q: int)\nstruct A(q: int)\nstruct B(q: int)\nstruct U(q: int)\nstruct V(q: int)\n'
 
 
 def nat(n, *a):
@@ -476,7 +478,7 @@ def run(tier):
             sig = 'C04|' + label + ('' if pi is None else '|probe:' + probes[pi][2])
             rep.nontrivial.add(sig)
             rep.outcome('accepted' if kind == 'ok' else ('rejected' if kind == 'cerr' else kind))
-            job = {'id': 0, 'limits': {}, 'steps': [{'feed': T.DECLS + extra[0]}, {'feed': text}]}
+            job = {'id': 0, 'limits': {}, 'steps': [{'feed': SHADOW + T.DECLS + extra[0]}, {'feed': text}]}
             if kind in ('panic', 'fatal', '?'):
                 rep.fail(Failure(PROP, sig + '|' + kind, {'text': text}, 'accepted' if exp else 'a compilation error', '%s %s' % (kind, info), job))
             elif (kind == 'ok') != exp:
@@ -492,7 +494,7 @@ def run(tier):
 
 def _feed_with(args):
     pre, texts = args
-    job = {'id': 0, 'limits': {}, 'steps': [{'feed': T.DECLS + pre}] + [{'feed': t} for t in texts]}
+    job = {'id': 0, 'limits': {}, 'steps': [{'feed': SHADOW + T.DECLS + pre}] + [{'feed': t} for t in texts]}
     rep = run_job(job, timeout=60.0)
     if 'fatal' in rep:
         if len(texts) == 1:
